@@ -35,7 +35,7 @@ void harness(void)
 {
 	IN(uint16_t, in_max); IN(uint16_t, in_len); IN(uintptr_t, in_ref); IN(int, in_attached); IN(int, in_has_ptr);
 	IN(int, in_send_ret); IN(int, in_has_msg); IN(size_t, in_k);
-	uint8_t in_id[IDMAX];
+	uint8_t in_id[IDMAX]; V_FILL(in_id);
 	MPT_INTERFACE(metatype) *mt; MPT_STRUCT(reply_context_defer) *ctx; MPT_STRUCT(reply_context) *rc = 0;
 	MPT_STRUCT(message) msg = MPT_MESSAGE_INIT; const MPT_STRUCT(message) *mp = in_has_msg ? &msg : 0;
 	uint8_t old_first = 0, old_k = 0; size_t i; int ret;
